@@ -42,20 +42,37 @@ def new_helpers(prog, vocab):
     # a function that is not in the vocabulary while a vocabulary function of the same module / impl has disappeared is a
     # *renamed* function, not a new helper: it keeps its role and must stay a function of its own in the view
     present = {strip_generics(b.path) for b in prog.bodies if b.kind in ("fn", "assoc_fn")}
+    crate_mods = {v.split("::")[0] for v in vocab if not v.startswith("<")}
     missing = {}
     for v in vocab:
         if v not in present:
             missing[v.rsplit("::", 1)[0]] = missing.get(v.rsplit("::", 1)[0], 0) + 1
+    sigs = load_sigs()
     for b in prog.bodies:
         if b.kind not in ("fn", "assoc_fn"):
             continue
         if strip_generics(b.path) in vocab:
+            # a pinned private helper that was *generalised* (a concrete parameter became `impl Trait` / a type parameter):
+            # what it iterates or operates on is now decided by its callers, so the view inlines it there
+            ps = sigs.get(strip_generics(b.path))
+            cs = [b.local_ty(i) for i in range(1, b.arg_count + 1)]
+            if ps and len(ps) == len(cs) and b.raw.get("reachable") is not True and not b.raw.get("impl_trait") and b.n <= 120 \
+                    and any(c != p and (c.startswith("impl ") or c in (b.raw.get("generics") or [])) for c, p in zip(cs, ps)) \
+                    and not any(fr is not None and prog.resolve_local(fr) is b for _, _, fr in b.iter_calls()) \
+                    and not prog.fn_value_uses(lambda n, p_=b.path: n == p_):
+                out[b.path] = b
             continue
         pre = strip_generics(b.path).rsplit("::", 1)[0]
         if missing.get(pre, 0) > 0:
             missing[pre] -= 1
             continue
-        if b.raw.get("reachable") is True or b.raw.get("impl_trait") or b.n > MAX_BLOCKS:
+        it_ = b.raw.get("impl_trait")
+        if it_:
+            # methods of an impl of a trait that itself is new in this tree (a private trait introduced to share code)
+            tr_new = not any(v.startswith(it_ + "::") or (" as " + it_ + ">") in v for v in vocab) and it_.split("::")[0] in crate_mods
+            if not tr_new:
+                continue
+        if b.raw.get("reachable") is True or b.n > MAX_BLOCKS:
             continue
         if any(fr is not None and prog.resolve_local(fr) is b for _, _, fr in b.iter_calls()):
             continue
@@ -88,11 +105,22 @@ def _place(p, loff, smap):
     return q
 
 
+_IMPL_INDEX = {}     # (self type, trait path) -> {method name: impl item path}; set by inlined_facts
+
+
 def _fnref(fr, smap):
     fr2 = dict(fr)
     for k in ("args", "resolved_args"):
         if k in fr2:
             fr2[k] = [_subst_ty(a, smap) for a in fr2[k]]
+    # a call of a trait method on a generic `Self` / `T` becomes, after substitution, a call on a concrete crate type:
+    # resolve it through the crate's impl table (what rustc's Instance::resolve would answer for the monomorphic body)
+    if smap and fr2.get("trait") and not fr2.get("resolved") and fr2.get("args"):
+        items = _IMPL_INDEX.get((re.sub(r"<.*$", "", fr2["args"][0]), fr2["trait"]))
+        name = strip_generics(fr2["path"]).split("::")[-1]
+        if items and name in items:
+            fr2["resolved"] = items[name]
+            fr2["resolved_args"] = fr2["args"][1:]
     return fr2
 
 
@@ -232,6 +260,103 @@ def inline_at(prog, body, block):
     except Exception:
         pass
     return mir.Body(raw, prog)
+
+
+def desugar_extend(raws, facts):
+    """`v.extend(iter.map(f))` / `v.extend(iter)` on a Vec is rewritten (in the view) into the loop it stands for:
+
+        let mut it = iter.into_iter(); loop { match it.next() { Some(x) => v.push(f(x)), None => break } }
+
+    with the closure body of `f` inlined, so that the loop rules (one command per element, no early exit, canonical
+    iteration source) read it exactly like a hand-written `for` loop. Semantics preserved (`Extend for Vec` pushes every
+    item in iteration order; a size-hint reservation is not observable). Returns the number of rewritten calls."""
+    n = 0
+    cur = mir.Program(dict(facts, bodies=list(raws.values())))
+    for path, raw in list(raws.items()):
+        body = cur.by_path.get(path)
+        if body is None:
+            continue
+        for b in range(len(raw["blocks"])):
+            blk = raw["blocks"][b]
+            t = blk["term"]
+            if t["k"] != "call" or blk["cleanup"]:
+                continue
+            fr = op_fn(t["func"])
+            if fr is None or not (fr.get("resolved") or "").startswith("<alloc::vec::Vec<T, A> as core::iter::traits::collect::Extend<T>>::extend") \
+                    or len(t["args"]) != 2 or t.get("t") is None:
+                continue
+            it_op = t["args"][1]
+            clo_op = None
+            p = mir.op_place(it_op)
+            if p is not None and not p["p"]:
+                ds = [d for d in body.defs.get(p["l"], []) if d[0] in ("stmt", "call")]
+                if len(ds) == 1 and ds[0][0] == "call":
+                    mt = ds[0][2]
+                    mfr = op_fn(mt["func"])
+                    if mfr is not None and mfr["path"].endswith("iterator::Iterator::map") and len(mt["args"]) == 2:
+                        it_op, clo_op = mt["args"][0], mt["args"][1]
+            clo_raw = None
+            if clo_op is not None:
+                os_ = mir.origins(body, clo_op)
+                if len(os_) == 1:
+                    o = next(iter(os_))
+                    if o[0] == "agg" and len(o) == 3:
+                        ag = raw["blocks"][o[1]]["stmts"][o[2]]["rv"].get("agg")
+                        if ag and ag.get("kind") == "closure" and ag.get("closure") in raws and raws[ag["closure"]]["arg_count"] == 2:
+                            clo_raw = raws[ag["closure"]]
+                if clo_raw is None:
+                    continue
+            elem_ty = (fr.get("resolved_args") or fr.get("args") or ["?"])[0]
+            line = t.get("line")
+            L = raw["locals"]
+
+            def new_local(ty, name=None):
+                L.append({"ty": ty, "name": name})
+                return len(L) - 1
+            l_it = new_local("desugared::Iter", "iter")
+            l_ref = new_local("&mut desugared::Iter")
+            l_o = new_local("core::option::Option<desugared::Item>")
+            l_d = new_local("isize")
+            l_x = new_local("desugared::Item")
+            l_y = new_local(elem_ty)
+            l_u = new_local("()")
+            l_cref = new_local("&mut closure") if clo_raw is not None else None
+            B = raw["blocks"]
+            base = len(B)
+            H, S, P, Q, U = base, base + 1, base + 2, base + 3, base + 4
+            exit_t = t["t"]
+
+            def fnref(path_, resolved=None, args=()):
+                return {"const": {"fn": {"path": path_, "resolved": resolved or path_, "args": list(args)}, "ty": "fn"}}
+            # header: o = it.next()
+            B.append({"cleanup": False, "stmts": [{"k": "assign", "place": {"l": l_ref, "p": []}, "rv": {"ref": {"l": l_it, "p": []}, "mut": True}, "line": line, "exp": None, "inl": True}],
+                      "term": {"k": "call", "func": fnref("core::iter::traits::iterator::Iterator::next"), "args": [{"move": {"l": l_ref, "p": []}}],
+                               "dest": {"l": l_o, "p": []}, "t": S, "unwind": None, "line": line, "exp": None}})
+            B.append({"cleanup": False, "stmts": [{"k": "assign", "place": {"l": l_d, "p": []}, "rv": {"discr": {"l": l_o, "p": []}}, "line": line, "exp": None, "inl": True}],
+                      "term": {"k": "switch", "op": {"move": {"l": l_d, "p": []}}, "targets": [[0, exit_t], [1, P]], "otherwise": U, "line": line, "exp": None}})
+            some_x = {"move": {"l": l_o, "p": [{"downcast": 1, "name": "Some"}, {"f": 0, "ty": "desugared::Item", "name": "0", "adt": "core::option::Option"}]}}
+            pstm = [{"k": "assign", "place": {"l": l_x, "p": []}, "rv": {"use": some_x}, "line": line, "exp": None, "inl": True}]
+            if clo_raw is None:
+                pstm.append({"k": "assign", "place": {"l": l_y, "p": []}, "rv": {"use": {"move": {"l": l_x, "p": []}}}, "line": line, "exp": None, "inl": True})
+                B.append({"cleanup": False, "stmts": pstm, "term": {"k": "goto", "t": Q, "line": line, "exp": None}})
+            else:
+                cp = mir.op_place(clo_op)
+                pstm.append({"k": "assign", "place": {"l": l_cref, "p": []}, "rv": {"ref": {"l": cp["l"], "p": list(cp["p"])}, "mut": True}, "line": line, "exp": None, "inl": True})
+                B.append({"cleanup": False, "stmts": pstm,
+                          "term": {"k": "call", "func": fnref(clo_raw["path"]), "args": [{"move": {"l": l_cref, "p": []}}, {"move": {"l": l_x, "p": []}}],
+                                   "dest": {"l": l_y, "p": []}, "t": Q, "unwind": None, "line": line, "exp": None}})
+            B.append({"cleanup": False, "stmts": [],
+                      "term": {"k": "call", "func": fnref("alloc::vec::Vec::<T, A>::push", args=[elem_ty, "alloc::alloc::Global"]),
+                               "args": [{"copy": mir.op_place(t["args"][0])} if mir.op_place(t["args"][0]) is not None else t["args"][0], {"move": {"l": l_y, "p": []}}],
+                               "dest": {"l": l_u, "p": []}, "t": H, "unwind": None, "line": line, "exp": None}})
+            B.append({"cleanup": False, "stmts": [], "term": {"k": "unreachable", "line": line, "exp": None}})
+            # the extend call becomes `it = into_iter(iterable)` -> header
+            blk["term"] = {"k": "call", "func": fnref("core::iter::traits::collect::IntoIterator::into_iter"), "args": [it_op], "dest": {"l": l_it, "p": []},
+                           "t": H, "unwind": None, "line": line, "exp": None, "desugared": "extend"}
+            if clo_raw is not None:
+                inline_call(raw, P, copy.deepcopy(clo_raw))
+            n += 1
+    return n
 
 
 def devirtualise_closure_calls(raws, facts):
@@ -613,6 +738,10 @@ def adts_key(adts, ty):
 def inlined_facts(facts, vocab=None):
     """returns (facts2, info) where facts2 is the helper-inlined view, or (None, info) when there is nothing to inline"""
     vocab = vocab if vocab is not None else load_vocab()
+    _IMPL_INDEX.clear()
+    for im in facts.get("impls", []):
+        if im.get("trait") and im.get("self_adt"):
+            _IMPL_INDEX[(im["self_adt"], im["trait"])] = {it["name"]: it["path"] for it in im.get("items", []) if it.get("kind") == "Fn"}
     prog = mir.Program(facts)
     helpers = new_helpers(prog, vocab)
     info = {"new_helpers": sorted(mir.strip_generics(p) for p in helpers), "inlined_sites": 0, "dropped": [], "arm_split": []}
@@ -624,7 +753,8 @@ def inlined_facts(facts, vocab=None):
             if r2 is not raw:
                 raws[path] = r2
                 info["arm_split"].append(mir.strip_generics(path))
-    if not helpers and not info["arm_split"]:
+    info["desugared_extend"] = desugar_extend(raws, facts)
+    if not helpers and not info["arm_split"] and not info["desugared_extend"]:
         sigs = load_sigs()
         info["unbundled"] = unbundle_params(raws, facts, sigs) if sigs else []
         if not info["unbundled"]:
@@ -724,7 +854,13 @@ def thread_variants(raw):
     blocks = raw["blocks"]
     # tracked locals: the return places / call destinations of inlined helpers and what they flow into by whole-value
     # moves, Try::branch and discriminant reads (forward closure). Everything else keeps a single copy of its blocks.
-    relevant = set(raw.get("thread_seeds") or [])
+    def _threadable(l):
+        ty = raw["locals"][l]["ty"] if l < len(raw["locals"]) else ""
+        return ty.startswith(("core::option::Option<", "core::result::Result<", "core::ops::control_flow::ControlFlow<", "core::ops::ControlFlow<")) \
+            or ty in ("bool", "isize", "usize", "u8", "u32", "i32", "u64")
+    # only variant-like values are worth separating (a helper's Option / Result / bool return); a payload enum built inside a
+    # loop would otherwise peel the loop (its variant is a "fact" on the back edge)
+    relevant = {l for l in (raw.get("thread_seeds") or []) if _threadable(l)}
     if not relevant:
         return raw
     changed = True
